@@ -20,7 +20,9 @@ def statement(fname, lemma):
             break
     else:
         raise SystemExit("no colon in " + lemma)
-    return ("forall %s,\n  %s" % (binders, stmt)) if binders else stmt
+    if "gunzip_prefix" in stmt and "gunzip_prefix" not in binders:
+        binders = "(gunzip_prefix : bytes -> option bytes) " + binders     # Section variable of the Detect sections
+    return ("forall %s,\n  %s" % (binders, stmt)) if binders.strip() else stmt
 
 def emit(pid, header, imports, items, extra=""):
     out = [header, imports, "", "Close Scope Qc_scope. Close Scope Q_scope. Open Scope nat_scope.", ""]
@@ -220,3 +222,43 @@ emit_n("C16", "(* Property C16 - damaged spectrum files are rejected, never read
  ("any_format_count_must_match", "TextP", "read_spectrum_count", "auto-detected input: likewise"),
  ("short_input_has_no_format", "TextP", "detect_short", "inputs shorter than the magic have no format (error, not a panic)"),
 ])
+
+def emit_s(pid, header, items, imports, extra=""):
+    out = [header, imports, ""]
+    for name, fname, lemma, comment in items:
+        nscope = fname in ("DetectP", "StreamP", "NpyP", "TextP")
+        out.append("Close Scope string_scope. Open Scope N_scope." if nscope else "Close Scope N_scope. Open Scope nat_scope.")
+        out.append("(* %s *)" % comment)
+        out.append("Theorem %s_%s : %s." % (pid, name, statement(fname, lemma)))
+        out.append("Proof. exact (@%s). Qed." % lemma)
+        out.append("Print Assumptions %s_%s." % (pid, name))
+        out.append("")
+    out.append(extra)
+    open(os.path.join(ROOT, "coq/theories/Properties/%s.v" % pid), "w").write("\n".join(out))
+
+emit_s("C18", "(* Property C18 - results do not depend on how the byte stream is chunked; I/O errors surface (partial:\n   noodles' use of the stream between fill_buf calls is exercised, not modelled). *)", [
+ ("read_exact_schedule_free", "StreamP", "read_exact_sched_free", "std's read_exact over a BufRead returns the same bytes for every chunk schedule"),
+ ("read_exact_short_is_error", "StreamP", "read_exact_short", "... and an error when the stream ends early"),
+ ("read_to_end_schedule_free", "StreamP", "read_to_end_sched_free", "read_to_end (spectrum files are read whole) likewise"),
+ ("npy_values_schedule_free", "StreamP", "read_values_sched_free", "the value loop (fill_buf().is_empty() + read_exact) over any schedule = over the whole buffer"),
+ ("npy_reader_schedule_free", "StreamP", "read_npy_sched_free", "the npy reader over any chunk schedule = the npy reader over the whole buffer"),
+ ("read_failure_surfaces", "StreamP", "read_to_end_fault", "a source that fails before its end makes read_to_end fail"),
+ ("read_exact_failure_surfaces", "StreamP", "read_exact_fault", "... and read_exact"),
+ ("npy_read_failure_surfaces", "StreamP", "read_npy_fault", "... and the npy reader: never a result from partial data"),
+ ("write_all_completes_short_writes", "StreamP", "write_all_sched_free", "a writer that accepts a few bytes per call receives all bytes, in order"),
+ ("write_failure_surfaces", "StreamP", "write_all_fault", "a sink that fails before the end makes write_all fail"),
+ ("npy_writer_schedule_free", "StreamP", "write_npy_sched_free", "the npy writer through any short-write schedule produces the same bytes"),
+ ("npy_write_failure_surfaces", "StreamP", "write_npy_fault", "... and fails when the sink fails at any offset"),
+ ("detection_schedule_free", "DetectP", "detect_sched_free", "compression/format detection of call-set streams (as repaired) sees the same prefix for every chunk schedule, including a first chunk of one byte"),
+ ("first_chunk_detection_was_schedule_dependent", "StreamP", "detect_short_first_chunk_refuted", "refutation kept on record: detection from ONE fill_buf (the unrepaired code) depends on the first chunk"),
+], "From Sfs Require Import Index Npy Text Stream NpyP StreamP DetectP.\nClose Scope string_scope. Open Scope N_scope.")
+
+emit_s("C12", "(* Property C12 - output depends only on call data, not container, transport, threads or run (partial: the\n   decoding of VCF/BCF/BGZF by noodles, its worker threads and inflate are exercised, not modelled). What is proved:\n   container detection sees the same 64 KiB prefix for every way the transport chunks the stream and follows from the\n   magic numbers alone; the shape and population ids are functions of the sample list only (no hash-iteration order\n   enters: the model of population_sizes uses point lookups only, as the code does); the modelled pipeline takes the\n   decoded call set as its only input. *)", [
+ ("detection_transport_free", "DetectP", "detect_sched_free", "container detection is independent of how the transport chunks the stream"),
+ ("detection_bcf", "DetectP", "detect_bcf", "a stream starting with the BCF magic is BCF, for every chunking"),
+ ("detection_plain", "DetectP", "detect_plain", "a stream starting with neither the gzip nor the BCF magic is VCF, for every chunking"),
+ ("whole_stream_is_read_once", "StreamP", "read_to_end_sched_free", "reading to the end is chunking-independent"),
+ ("shape_from_list_only", "CreateSpecP", "map_shape_spec", "the output shape is a function of the sample list (labels in first-appearance order, counts): nothing else, in particular no hash order"),
+ ("ids_from_list_only", "CreateSpecP", "build_map_ids", "population ids likewise"),
+ ("column_order_free", "CreateSpecP", "read_site_column_perm", "the order of sample columns in the container does not matter"),
+], "From Sfs Require Import Index ArrayM Scalar Spectrum Project Create Npy Text Stream IndexP ArrayP NpyP StreamP DetectP CreateP CreateSpecP.\nFrom Coq Require Import Permutation.")
